@@ -37,6 +37,8 @@ func runC06(p *eng.Prog, r *eng.Report, tier string) {
 	callerAttrsCopied(c, "C06.15")
 	idTypFromOwnAttributes(c, "C06.16")
 	pageTurnClosesFirst(c, "C06.17")
+	c15ExpectOwnEntryAs(c, "C06.18")
+	deadlineWatchersArmedAtOnce(c, "C06.19")
 	waitKey(c, "C06.10")
 	handoffDrained(c, "C06.2")
 	cancelledWaiterToHandler(c, "C06.2")
